@@ -10,6 +10,7 @@ C={
  "C05":("exploration","random Quake 1/2/3 server states are encoded by an independent reference encoder, served through the scripted transport, and the query result is compared field for field with the expected response; sampled, not exhaustive","trusts the reference encoder's reading of the Quake status format (space-tokenised player lines, newline-terminated lines)",PBT,"§2 C05"),
  "C06":("exploration","random Unreal 2 server states (Latin-1 / UCS-2 strings with colour escapes and control codes, repeated rule keys, mutators, bots, 1-6+ datagrams per list) are encoded by a reference encoder; the query result must equal the response computed from the characters the model chose; every length-byte value and the BOM look-alike strings are enumerated in every run","trusts the reference encoder; UCS-2 strings whose first byte is 01 are sent in the 'stray 01' form because no reader can tell the two apart",PBT,"§2 C06"),
  "C07":("exploration","random well-formed replies of the six single-game UDP formats over the scripted transport and of Eco over a real loopback HTTP server; every response field compared with the value the model put on the wire (table written from the types' documentation), overrides and failure conditions included","trusts the per-game encoders (layout points taken from the implementation are listed as assumptions); Eco floats compared with 1e-12 relative tolerance",PBT,"§2 C07"),
+ "C13":("exploration","the hostile reply scripts of C01, biased towards extreme values in numeric positions (binary and decimal), plus deterministic compressed-split cases with declared sizes up to 4 GiB and a real bzip2 bomb; a counting global allocator armed around each query checks peak live <= 64 MiB, largest request <= 16 MiB and the send bound; cases run in worker processes under an address-space limit so that an allocation failure is attributed to its case","allocations of other threads / the OS are invisible; the harness's own transport copies are counted (a few MiB at most)","property-based testing / mutation fuzzing with a resource oracle (counting allocator, process isolation)","§2 C13"),
  "C17":("exploration","every operation of generated operation sequences on generated packets is compared with a 60-line reference reader (value, position, bounds); the small scope (packets <=3/4 bytes over a 6-symbol alphabet x sequences <=3/4 ops x LE/BE) is enumerated completely, longer packets/sequences are sampled; VarInt round trip is exhaustive over 2^32 in the thorough tier","trusts the reference reader and the stated reading of 'malformed' string reads (only bounds/no-panic required there)","exhaustive small-scope enumeration + property-based testing against a reference model","§2 C17"),
 }
 ORDER=["C%02d"%i for i in range(1,21)]
